@@ -596,6 +596,7 @@ pub struct WideProg {
     pub looped: bool,
     pub start: u8,
     pub upd: Vec<Upd>,
+    pub nupd_sel: u8,
     pub out_in_loop: Option<u8>,
     /// constants built by foldable multiply chains (G-bigconst): (cell, base, squarings)
     pub big: Option<(u8, u8, u8)>,
@@ -641,7 +642,10 @@ impl WideProg {
             w.e("[");
         }
         let mut updated = vec![];
-        for (j, u) in self.upd.iter().enumerate().take(n as usize) {
+        // a cycle through all cells (every cell updated from its successors) makes one
+        // strongly connected component of n simultaneously live values
+        let nupd = if self.nupd_sel < 170 { n as usize } else { 1 + (self.nupd_sel as usize % n as usize) };
+        for (j, u) in self.upd.iter().cycle().enumerate().take(nupd.min(n as usize)) {
             let i = (self.start as i64 + j as i64) % n;
             updated.push((i, u.clear));
             let a = (i + 1 + (u.a_off % 3) as i64) % n;
@@ -718,10 +722,12 @@ impl WideProg {
 }
 
 pub fn wide_prog(big: bool) -> impl Strategy<Value = WideProg> {
-    let upd = (0u8..3, 0u8..4, 0u8..12, 0u8..3, prop_oneof![3 => Just(true), 1 => Just(false)]).prop_map(|(a_off, b_off, f, k, clear)| Upd { a_off, b_off, f, k, clear });
+    // copies and sums are cheap in canonical steps; products are rarer
+    const F_TABLE: [u8; 20] = [0, 0, 0, 0, 0, 0, 3, 3, 3, 4, 4, 6, 6, 1, 2, 5, 7, 8, 9, 10];
+    let upd = (prop_oneof![3 => Just(0u8), 2 => 0u8..3], 0u8..4, prop_oneof![9 => (0usize..20).prop_map(|i| F_TABLE[i]), 1 => Just(11u8)], 0u8..3, prop_oneof![3 => Just(true), 1 => Just(false)]).prop_map(|(a_off, b_off, f, k, clear)| Upd { a_off, b_off, f, k, clear });
     let bigs = if big { (0u8..20, 0u8..3, 0u8..6).prop_map(Some).boxed() } else { Just(None).boxed() };
-    (prop_oneof![1 => 6u8..10, 3 => 10u8..20], vec((0u8..10, 0u8..4), 20), any::<bool>(), 0u8..3, prop_oneof![3 => Just(true), 1 => Just(false)], 0u8..20, prop_oneof![1 => vec(upd.clone(), 1..8), 3 => vec(upd, 8..20)], proptest::option::weighted(0.3, 0u8..20), bigs)
-        .prop_map(|(n, init, cnt_in, cnt_k, looped, start, upd, out_in_loop, big)| WideProg { n, init, cnt_in, cnt_k, looped, start, upd, out_in_loop, big })
+    (prop_oneof![1 => 6u8..12, 1 => 12u8..18, 2 => 18u8..28], vec((0u8..10, 0u8..4), 20), any::<bool>(), 0u8..3, prop_oneof![9 => Just(true), 1 => Just(false)], 0u8..20, (vec(upd, 1..21), any::<u8>()), proptest::option::weighted(0.3, 0u8..20), bigs)
+        .prop_map(|(n, init, cnt_in, cnt_k, looped, start, (upd, nupd_sel), out_in_loop, big)| WideProg { n, init, cnt_in, cnt_k, looped, start, upd, nupd_sel, out_in_loop, big })
 }
 
 // ---------------------------------------------------------------- G-roam
